@@ -156,3 +156,15 @@ Definition run_guard (inp : Z * bool * bool) : V :=
       | None => VS "no-such-api"
       end
   end.
+
+(* suite "connected": only the closers are known; any complete schedule gives
+   the same final flags (c21_final_state), so a round-robin one is run *)
+Fixpoint round_robin (rounds n : nat) : list nat :=
+  match rounds with O => [] | S r => seq 0 n ++ round_robin r n end.
+Definition run_final (closers : list Z) : V :=
+  let ts := map (fun k => if Z.eqb k 1 then TGracefulClose else TClose) closers in
+  let n := List.length ts in
+  let s := Close.run (init ts) (round_robin (7 * n) n) in
+  VL [VB (isClosed s); VB (gflag s); VB (closeDone s); VB (gracefulDone s);
+      VB (sigClosed s); VZ (pcs_to_Z (connState s));
+      VB (closed_is_final (connLog s) && pcs_eqb (last (connLog s) PcNew) PcClosed)].
